@@ -5,12 +5,16 @@ from . import civil as C
 from . import zones as Z
 from . import tzif as T
 
-THEOREMS = {'C01': ['Cctz.C01.breakTime_table', 'Cctz.C01.breakTime_shift', 'Cctz.C01.fixed_table', 'Cctz.C01.fixed_lookup'],
+THEOREMS = {'C01': ['Cctz.C01.breakTime_table', 'Cctz.C01.breakTime_shift', 'Cctz.C01.fixed_table', 'Cctz.C01.fixed_lookup',
+                    'Cctz.C01Rule.tables', 'Cctz.C01Rule.transOffset', 'Cctz.C01Rule.ruleDay_periodic', 'Cctz.C01Rule.ruleInstant_periodic',
+                    'Cctz.C01Rule.extendLoop_state', 'Cctz.C01Rule.extendLoop_trans'],
             'C02': ['Cctz.C02.farApart_separated', 'Cctz.C02.makeTime', 'Cctz.C02.shift', 'Cctz.C02.makeTime_needs_TimesInRange', 'Cctz.C02.shift_needs_after_last'],
             'C03': ['Cctz.C03.roundtrip', 'Cctz.C03.converse'],
             'C06': ['Cctz.C06.convert_monotone', 'Cctz.C06.convert_def', 'Cctz.C06.convert_monotone_needs_TimesInRange', 'Cctz.C06.convert_monotone_needs_FirstEntryRoom'],
             'C10': ['Cctz.C10.saturate_max', 'Cctz.C10.saturate_max_small', 'Cctz.C10.saturate_min', 'Cctz.C10.saturate_min_small',
-                    'Cctz.C10.max_roundtrip', 'Cctz.C10.min_roundtrip', 'Cctz.C10.saturate_max_needs_time_bound'],
+                    'Cctz.C10.max_roundtrip', 'Cctz.C10.min_roundtrip', 'Cctz.C10.saturate_max_needs_time_bound',
+                    'Cctz.C10Safe.makeTime_ok', 'Cctz.C10Safe.convert_ok', 'Cctz.C10Safe.transitions_ok', 'Cctz.C10Safe.results_in_range',
+                    'Cctz.C10Safe.breakTime_ok_partial', 'Cctz.C10Safe.breakTime_ok_below_max', 'Cctz.C10Safe.breakTime_ok_nonextended', 'Cctz.C10Safe.breakTime_ok_counterexample'],
             'C11': ['Cctz.C11.nextTransition_spec', 'Cctz.C11.prevTransition_spec', 'Cctz.C11.ends', 'Cctz.C11.no_change', 'Cctz.C11.chain', 'Cctz.C11.constants'],
             'C14': ['Cctz.C14.breakTime_hint_irrelevant', 'Cctz.C14.makeTime_hint_irrelevant', 'Cctz.C14.convert_hint_irrelevant', 'Cctz.C14.history_irrelevant']}
 K400 = Z.K400
@@ -127,7 +131,7 @@ def expected_bt(zone, t):
 # ------------------------------------------------------------------------------------ C01
 
 def run_C01(chk):
-    chk.prepare_model('Cctz.Properties.C01', THEOREMS['C01'])
+    chk.prepare_model(['Cctz.Properties.C01', 'Cctz.Properties.C01Rule'], THEOREMS['C01'])
     exe = chk.harness('san')
     scale = chk.tier if not chk.broken else 'thorough'
     if exe is None or not getattr(chk, 'driver_ok', False):
@@ -471,7 +475,7 @@ def extreme_civils(rng, n):
 
 
 def run_C10(chk):
-    chk.prepare_model('Cctz.Properties.C10', THEOREMS['C10'])
+    chk.prepare_model(['Cctz.Properties.C10', 'Cctz.Properties.C10Safe'], THEOREMS['C10'])
     exe = chk.harness('san')
     scale = chk.tier if not chk.broken else 'thorough'
     if exe is None or not getattr(chk, 'driver_ok', False):
